@@ -14,16 +14,21 @@ theorem sqrt_two_lt : Real.sqrt 2 < (1.41422 : ℝ) := by
 
 /-! ### speeds -/
 
-theorem velocity_eq {r a : ℝ} (hr : r ≠ 0) (ha : a ≠ 0) (h : 0 ≤ 1 / r - 1 / (2 * a)) :
+theorem velocity_eq {r a : ℝ} (hr : 0 < r) (ha : 0 < a) (h : 0 ≤ 1 / r - 1 / (2 * a)) :
     velocity r a = .ok (42.1218 * Real.sqrt (1 / r - 1 / (2 * a))) := by
-  have h2 : (2.0 : ℝ) * a ≠ 0 := by norm_num; exact ha
+  have h2 : (2.0 : ℝ) * a ≠ 0 := by norm_num; exact ha.ne'
   have e : (1.0 : ℝ) / r - 1.0 / (2.0 * a) = 1 / r - 1 / (2 * a) := by norm_num
+  have hg1 : ple r (0.0 : ℝ) = false := by
+    unfold ple; rw [decide_eq_false_iff_not]; norm_num; exact hr
+  have hg2 : ple a (0.0 : ℝ) = false := by
+    unfold ple; rw [decide_eq_false_iff_not]; norm_num; exact ha
   unfold velocity
-  simp only [fdiv_ok hr, fdiv_ok h2, e, fsqrt_ok h]
+  simp only [hg1, hg2, Bool.or_self, Bool.false_eq_true, if_false]
+  simp only [fdiv_ok hr.ne', fdiv_ok h2, e, fsqrt_ok h]
 
 theorem velocity_peri_eq {e a : ℝ} (he0 : 0 ≤ e) (he1 : e < 1) (ha : 0 < a) :
     velocity (a * (1 - e)) a = .ok (42.1218 * (Real.sqrt ((1 + e) / (1 - e)) / (Real.sqrt 2 * Real.sqrt a))) := by
-  have h1 : a * (1 - e) ≠ 0 := by apply mul_ne_zero <;> linarith
+  have h1 : 0 < a * (1 - e) := by apply mul_pos <;> linarith
   have hA : 0 ≤ (1 + e) / (1 - e) := by apply div_nonneg <;> linarith
   have hval : (1 : ℝ) / (a * (1 - e)) - 1 / (2 * a) = (1 + e) / (1 - e) / (2 * a) := by
     have : (1 - e) ≠ 0 := by linarith
@@ -31,11 +36,11 @@ theorem velocity_peri_eq {e a : ℝ} (he0 : 0 ≤ e) (he1 : e < 1) (ha : 0 < a) 
     field_simp; ring
   have h3 : (0 : ℝ) ≤ 1 / (a * (1 - e)) - 1 / (2 * a) := by
     rw [hval]; apply div_nonneg hA; linarith
-  rw [velocity_eq h1 ha.ne' h3, hval, Real.sqrt_div hA, Real.sqrt_mul (by norm_num)]
+  rw [velocity_eq h1 ha h3, hval, Real.sqrt_div hA, Real.sqrt_mul (by norm_num)]
 
 theorem velocity_aph_eq {e a : ℝ} (he0 : 0 ≤ e) (he1 : e < 1) (ha : 0 < a) :
     velocity (a * (1 + e)) a = .ok (42.1218 * (Real.sqrt ((1 - e) / (1 + e)) / (Real.sqrt 2 * Real.sqrt a))) := by
-  have h1 : a * (1 + e) ≠ 0 := by apply mul_ne_zero <;> linarith
+  have h1 : 0 < a * (1 + e) := by apply mul_pos <;> linarith
   have hA : 0 ≤ (1 - e) / (1 + e) := by apply div_nonneg <;> linarith
   have hval : (1 : ℝ) / (a * (1 + e)) - 1 / (2 * a) = (1 - e) / (1 + e) / (2 * a) := by
     have : (1 + e) ≠ 0 := by linarith
@@ -43,13 +48,13 @@ theorem velocity_aph_eq {e a : ℝ} (he0 : 0 ≤ e) (he1 : e < 1) (ha : 0 < a) :
     field_simp; ring
   have h3 : (0 : ℝ) ≤ 1 / (a * (1 + e)) - 1 / (2 * a) := by
     rw [hval]; apply div_nonneg hA; linarith
-  rw [velocity_eq h1 ha.ne' h3, hval, Real.sqrt_div hA, Real.sqrt_mul (by norm_num)]
+  rw [velocity_eq h1 ha h3, hval, Real.sqrt_div hA, Real.sqrt_mul (by norm_num)]
 
 theorem velocity_circ_eq {a : ℝ} (ha : 0 < a) :
     velocity a a = .ok (42.1218 * (1 / (Real.sqrt 2 * Real.sqrt a))) := by
   have hval : (1 : ℝ) / a - 1 / (2 * a) = 1 / (2 * a) := by field_simp; ring
   have h3 : (0 : ℝ) ≤ 1 / a - 1 / (2 * a) := by rw [hval]; positivity
-  rw [velocity_eq ha.ne' ha.ne' h3, hval, Real.sqrt_div (by norm_num), Real.sqrt_one,
+  rw [velocity_eq ha ha h3, hval, Real.sqrt_div (by norm_num), Real.sqrt_one,
     Real.sqrt_mul (by norm_num)]
 
 theorem velocity_perihelion_eq {e a : ℝ} (he0 : 0 ≤ e) (he1 : e < 1) (ha : 0 < a) :
